@@ -57,7 +57,7 @@ def new_violations(walks, cid, families):
 
 def run(tier, seed, selftest=False, replay=None):
     t0 = time.time()
-    cases, verdicts, progs, walks, vals = collect(tier, seed, replay, KIND, 5, 50, "c03")
+    cases, verdicts, progs, walks, vals = collect(tier, seed, replay, KIND, 8, 250, "c03")
     if selftest:
         return selftest_run(cases)
     verdict = Verdict(PID)
